@@ -96,6 +96,8 @@ func snapSparsePrivate(out []float64, v interface{}) []float64 {
 	return out
 }
 
+// snapVector: OBSERVABLE state of a vector: Dim, then every element (read via
+// ConstAt; for sparse vectors from a clone, never from the object itself).
 func snapVector(out []float64, v ConstVector) []float64 {
 	if isNil(v) {
 		return append(out, -1)
@@ -103,6 +105,32 @@ func snapVector(out []float64, v ConstVector) []float64 {
 	n := v.Dim()
 	out = append(out, float64(n))
 	plain := plainType(v.ElementType())
+	src := v
+	if st := VerifC11Dump(v); st.Sparse {
+		src = nil
+		func() {
+			defer func() { recover() }()
+			src = v.CloneConstVector()
+		}()
+		if src == nil {
+			return append(out, math.Inf(-1), -3)
+		}
+	}
+	for i := 0; i < n; i++ {
+		i := i
+		out = safeElem(out, plain, func() ConstScalar { return src.ConstAt(i) })
+	}
+	return out
+}
+
+// repVector: REPRESENTATION of a sparse vector (empty for dense vectors):
+// private map entries / index keys / n from the hooks, and the ConstIterator
+// (index, value) sequence of a clone.
+func repVector(v ConstVector) []float64 {
+	if isNil(v) {
+		return nil
+	}
+	var out []float64
 	switch w := v.(type) {
 	case SparseConstFloat64Vector:
 		idx, val := w.GetSparseIndices(), w.GetSparseValues()
@@ -114,36 +142,28 @@ func snapVector(out []float64, v ConstVector) []float64 {
 		out = append(out, val...)
 		return out
 	}
-	if st := VerifC11Dump(v); st.Sparse {
-		// never iterate the object itself: the sparse iterator's skip()
-		// mutates the representation
-		out = snapSparsePrivate(out, v)
-		func() {
-			defer func() {
-				if recover() != nil {
-					out = append(out, math.Inf(-1), -3)
-				}
-			}()
-			c := v.CloneConstVector()
-			cnt := 0
-			pos := len(out)
-			out = append(out, 0)
-			for it := c.ConstIterator(); it.Ok(); it.Next() {
-				out = append(out, float64(it.Index()))
-				out = snapElem(out, plain, it.GetConst())
-				cnt++
-			}
-			out[pos] = float64(cnt)
-			for i := 0; i < n; i++ {
-				i := i
-				out = safeElem(out, plain, func() ConstScalar { return c.ConstAt(i) })
+	if st := VerifC11Dump(v); !st.Sparse {
+		return nil
+	}
+	plain := plainType(v.ElementType())
+	out = snapSparsePrivate(out, v)
+	func() {
+		defer func() {
+			if recover() != nil {
+				out = append(out, math.Inf(-1), -3)
 			}
 		}()
-		return out
-	}
-	for i := 0; i < n; i++ {
-		out = snapElem(out, plain, v.ConstAt(i))
-	}
+		c := v.CloneConstVector()
+		cnt := 0
+		pos := len(out)
+		out = append(out, 0)
+		for it := c.ConstIterator(); it.Ok(); it.Next() {
+			out = append(out, float64(it.Index()))
+			out = snapElem(out, plain, it.GetConst())
+			cnt++
+		}
+		out[pos] = float64(cnt)
+	}()
 	return out
 }
 
@@ -154,6 +174,9 @@ func b2f(b bool) float64 {
 	return 0
 }
 
+// snapMatrix: OBSERVABLE state of a matrix: rows, cols, header fields, raw
+// storage of dense matrices, then every element row-major (sparse: from a
+// clone).
 func snapMatrix(out []float64, m ConstMatrix) []float64 {
 	if isNil(m) {
 		return append(out, -1)
@@ -166,16 +189,7 @@ func snapMatrix(out []float64, m ConstMatrix) []float64 {
 		sparse = h.Sparse
 		out = append(out, b2f(h.Sparse), float64(h.Len), float64(h.Rows), float64(h.Cols),
 			float64(h.RowOffset), float64(h.RowMax), float64(h.ColOffset), float64(h.ColMax), b2f(h.Transposed))
-		if h.Sparse {
-			idx, val, n := VerifC10SparseStorage(m)
-			out = append(out, float64(n), float64(len(idx)))
-			for i, k := range idx {
-				out = append(out, float64(k), val[i])
-			}
-			if inner, ok := VerifC11MatValues(m); ok {
-				out = snapSparsePrivate(out, inner)
-			}
-		} else {
+		if !h.Sparse {
 			st := VerifC10Storage(m)
 			out = append(out, float64(len(st)))
 			out = append(out, st...)
@@ -201,6 +215,29 @@ func snapMatrix(out []float64, m ConstMatrix) []float64 {
 			i, j := i, j
 			out = safeElem(out, plain, func() ConstScalar { return src.ConstAt(i, j) })
 		}
+	}
+	return out
+}
+
+// repMatrix: REPRESENTATION of a sparse matrix (empty for dense matrices):
+// stored (index, value) pairs and the private map / index keys of the
+// underlying sparse vector.
+func repMatrix(m ConstMatrix) []float64 {
+	if isNil(m) {
+		return nil
+	}
+	h, ok := VerifC10Header(m)
+	if !ok || !h.Sparse {
+		return nil
+	}
+	var out []float64
+	idx, val, n := VerifC10SparseStorage(m)
+	out = append(out, float64(n), float64(len(idx)))
+	for i, k := range idx {
+		out = append(out, float64(k), val[i])
+	}
+	if inner, ok := VerifC11MatValues(m); ok {
+		out = snapSparsePrivate(out, inner)
 	}
 	return out
 }
